@@ -5,8 +5,12 @@ pgrp=None, exactly like alias stages).  Alias-thread commands run on a real seco
 from __future__ import annotations
 
 import io
+import os
 import re
+import signal
+import sys
 import threading
+import time
 
 from harness import xsession
 
@@ -33,8 +37,35 @@ class StubPipeline:
         self.log.append(("resume", id(job), tee_output))
 
 
+_release = threading.Event()
+
+
+class _BrokenStream:
+    """stdout of a shell whose terminal went away."""
+
+    def write(self, s):
+        raise OSError(5, "Input/output error")
+
+    def flush(self):
+        pass
+
+
+def _verif_wait(args, stdin=None, stdout=None, stderr=None):
+    # a last-stage alias that stays alive until the driver lets the job end
+    t0 = time.time()
+    while not _release.is_set() and time.time() - t0 < 120:
+        time.sleep(0.01)
+    return 0
+
+
+def _verif_quick(args, stdin=None, stdout=None, stderr=None):
+    return 0
+
+
 def setup(wd):
     XSH = xsession.load()
+    XSH.aliases["verif_wait"] = _verif_wait
+    XSH.aliases["verif_quick"] = _verif_quick
     return {"XSH": XSH}
 
 
@@ -64,6 +95,8 @@ def _call(fn, args, **kw):
         r = fn(list(args), **kw)
     except SystemExit as e:  # argparse usage error inside ArgParserAlias
         return "", "usage error", int(e.code or 0) or 2
+    except Exception as e:  # noqa: BLE001 - an internal exception escaping a job command is an observation
+        return "", f"EXC:{type(e).__name__}: {e}", 70
     out, err, rtn = "", "", 0
     if r is None:
         pass
@@ -108,6 +141,8 @@ def run(ctx, scn):
     xj._jobs_thread_local.jobs = XSH.all_jobs
     XSH.env["AUTO_CONTINUE"] = False
     stubs = {}
+    real_pids = []
+    _release.clear()
     log = []
     steps = []
 
@@ -142,16 +177,75 @@ def run(ctx, scn):
             new = [k for k, v in XSH.all_jobs.items() if v is info]
             sel = new[0] if new else 0
             stubs[id(info)] = proc
+        elif cmd == "startfaulty":
+            tasks_now = set(xj._tasks_main)
+            remaining = [k for k, j in XSH.all_jobs.items() if not (k in tasks_now and j["obj"].poll() is not None)]
+            if len(remaining) >= maxjobs:
+                truncated = True
+                break
+            proc = StubProc()
+            info = {"cmds": [["stub"]], "pids": [None], "status": "running", "obj": proc, "bg": True,
+                    "pipeline": StubPipeline(log), "pgrp": None}
+            # fault injection: the announcement of the new background job cannot be printed
+            old_print, old_int = xj.print_one_job, XSH.env.get("XONSH_INTERACTIVE")
+            XSH.env["XONSH_INTERACTIVE"] = True
+
+            def _broken(*a, **k):
+                raise OSError(5, "Input/output error")
+
+            xj.print_one_job = _broken
+            try:
+                xj.add_job(info)
+            except OSError:
+                pass
+            finally:
+                xj.print_one_job = old_print
+                XSH.env["XONSH_INTERACTIVE"] = old_int
+            new = [k for k, v in XSH.all_jobs.items() if v is info]
+            sel = new[0] if new else 0
+        elif cmd == "startreal":
+            tasks_now = set(xj._tasks_main)
+            remaining = [k for k, j in XSH.all_jobs.items() if not (k in tasks_now and j["obj"].poll() is not None)]
+            if len(remaining) >= maxjobs and a["kind"] != "alias":
+                truncated = True
+                break
+            src = {"proc": "sleep 300 &", "proc|proc": "sleep 300 | sleep 301 &", "proc|alias": "sleep 300 | verif_wait &",
+                   "alias|proc": "verif_quick | sleep 300 &", "alias": "verif_quick &"}[a["kind"]]
+            before = dict(XSH.all_jobs)
+            g = {}
+            XSH.execer.exec(src + "\n", glbs=g, locs=g)
+            new = [k for k, v in XSH.all_jobs.items() if before.get(k) is not v]
+            sel = new[0] if new else 0
+            for k in new:
+                real_pids.extend(p for p in XSH.all_jobs[k]["pids"] if p)
         elif cmd == "exit":
             j = XSH.all_jobs.get(a["n"])
-            if j is None or j["obj"].returncode is not None:
+            if j is not None and not isinstance(j["obj"], StubProc):
+                if j["obj"].poll() is not None:
+                    truncated = True
+                    break
+                _release.set()
+                for p in j["pids"]:
+                    if p:
+                        try:
+                            os.kill(p, signal.SIGKILL)
+                        except ProcessLookupError:
+                            pass
+                t0 = time.time()
+                while j["obj"].poll() is None and time.time() - t0 < 20:
+                    time.sleep(0.01)
+                _release.clear()
+                if j["obj"].poll() is None:
+                    raise RuntimeError("real job did not terminate")
+            elif j is None or j["obj"].returncode is not None:
                 truncated = True  # the planned environment step is not possible in the real state
                 break
-            j["obj"].returncode = 0
+            else:
+                j["obj"].returncode = 0
         elif cmd == "stop":
             # what proc_untraced_waitpid records on WIFSTOPPED
             j = XSH.all_jobs.get(a["n"])
-            if j is None or j["obj"].returncode is not None or j["status"] != "running":
+            if j is None or not isinstance(j["obj"], StubProc) or j["obj"].returncode is not None or j["status"] != "running":
                 truncated = True
                 break
             j["status"] = "stopped"
@@ -187,4 +281,23 @@ def run(ctx, scn):
                 listed.append(int(m.group(1)) if m else -1)
         obs = {"tab": tab, "tasks": tasks, "failed": bool(rtn != 0 or (err or "").strip()), "out": listed, "sel": sel, "extra": extra}
         steps.append({"cmd": cmd, "arg": a, "ids": st.get("ids", []), "thr": thr, "obs": obs, "err": (err or "")[:120]})
+    # clean up real children
+    _release.set()
+    for p in real_pids:
+        try:
+            os.kill(p, signal.SIGKILL)
+        except ProcessLookupError:
+            pass
+    for j in list(XSH.all_jobs.values()):
+        if not isinstance(j["obj"], StubProc):
+            t0 = time.time()
+            while j["obj"].poll() is None and time.time() - t0 < 10:
+                time.sleep(0.01)
+    for p in real_pids:
+        try:
+            os.waitpid(p, os.WNOHANG)
+        except (ChildProcessError, OSError):
+            pass
+    XSH.all_jobs.clear()
+    xj._tasks_main.clear()
     return {"maxjobs": maxjobs, "steps": steps, "truncated": truncated}
